@@ -135,7 +135,7 @@ func (m *mockThings) BatchUpdate(ctx *restli.RequestContext, entities map[string
 }
 func (m *mockThings) BatchPartialUpdate(ctx *restli.RequestContext, entities map[string]*vt.Item_PartialUpdate) (*things.BatchResponse, error) {
 	m.ctx = ctx
-	err := m.rec(call{method: "batch_partial_update"})
+	err := m.rec(call{method: "batch_partial_update", keys: c02SortedKeys(entities)})
 	return &things.BatchResponse{Results: map[string]*common.BatchEntityUpdateResponse{}}, err
 }
 func (m *mockThings) BatchDelete(ctx *restli.RequestContext, keys []string) (*things.BatchResponse, error) {
@@ -156,8 +156,8 @@ func (m *mockThings) FindBySearch(ctx *restli.RequestContext, p *things.FindBySe
 }
 func (m *mockThings) FindByWithMeta(ctx *restli.RequestContext, p *things.FindByWithMetaParams) (*things.FindByWithMetaElements, error) {
 	m.ctx = ctx
-	err := m.rec(call{method: "finder:withMeta"})
-	return &things.FindByWithMetaElements{Metadata: &vt.Meta{}}, err
+	err := m.rec(call{method: "finder:withMeta", key2: int64(p.C)})
+	return &things.FindByWithMetaElements{Elements: []*vt.Item{{Name: "m"}}, Metadata: &vt.Meta{Total: 41}}, err
 }
 func (m *mockThings) PingAction(ctx *restli.RequestContext, p *things.PingActionParams) (string, error) {
 	m.ctx = ctx
@@ -179,7 +179,7 @@ func (m *mockParts) Get(ctx *restli.RequestContext, thingId string, partId int64
 	return &vt.Leaf{V: "leaf"}, nil
 }
 func (m *mockParts) Create(ctx *restli.RequestContext, thingId string, entity *vt.Leaf) (*parts.CreatedAndReturnedEntity, error) {
-	m.t.calls = append(m.t.calls, call{resource: "parts", method: "create", key: thingId})
+	m.t.calls = append(m.t.calls, call{resource: "parts", method: "create", key: thingId, msg: entity.V})
 	return &parts.CreatedAndReturnedEntity{CreatedEntity: common.CreatedEntity[int64]{Id: 5}, Entity: entity}, nil
 }
 
@@ -190,7 +190,7 @@ func (m *mockInfo) Get(ctx *restli.RequestContext, thingId string) (*vt.Inner, e
 	return &vt.Inner{S: "i"}, nil
 }
 func (m *mockInfo) Update(ctx *restli.RequestContext, thingId string, entity *vt.Inner) error {
-	m.t.calls = append(m.t.calls, call{resource: "info", method: "update", key: thingId})
+	m.t.calls = append(m.t.calls, call{resource: "info", method: "update", key: thingId, msg: entity.S})
 	return nil
 }
 func (m *mockInfo) Delete(ctx *restli.RequestContext, thingId string) error {
@@ -198,8 +198,15 @@ func (m *mockInfo) Delete(ctx *restli.RequestContext, thingId string) error {
 	return nil
 }
 func (m *mockInfo) ResetAction(ctx *restli.RequestContext, thingId string, p *info.ResetActionParams) (int32, error) {
-	m.t.calls = append(m.t.calls, call{resource: "info", method: "action:reset", key: thingId})
-	return 1, nil
+	c := call{resource: "info", method: "action:reset", key: thingId}
+	if p.Hard != nil {
+		c.key2 = 1
+		if *p.Hard {
+			c.key2 = 2
+		}
+	}
+	m.t.calls = append(m.t.calls, c)
+	return 1 + int32(c.key2), nil
 }
 
 func newServer(m *mockThings, filters ...restli.Filter) http.Handler {
